@@ -91,6 +91,10 @@ structure Mon where
   active : Nat := 0
   inv : Nat := 0
   done : Bool := false
+  ownRet : Bool := false              -- the current invocation returned on its own and completion is still to be signalled
+  ownCtx : Bool := false              -- … with a context error of an inner operation (ambiguous once a Stop is called)
+  running : Bool := false
+  cancelSince : Bool := false         -- a Stop has cancelled something since the current generation was published
 
 def getField (fields : List String) (k : String) : Option String :=
   (fields.filterMap fun f => match f.splitOn "=" with | [a, v] => if a = k then some v else none | _ => none).head?
@@ -102,8 +106,15 @@ def mon (st : Mon) (op : List String) (outs : List (List String)) : Mon × List 
   let done := (getField obsF "done") = some "1"
   let doneClosed := (getField obsF "doneClosed") = some "1"
   let overlap := (getField obsF "overlap") = some "1"
+  let running := match getField obsF "running" with | some v => v = "1" | none => st.running
+  -- "completion is signalled exactly when the function returns on its own": by the time the running flag drops after such a
+  -- return the done channel is closed (a return with an inner operation's context error counts unless a Stop was called
+  -- meanwhile, which makes the cause ambiguous)
+  let c5 := if st.running ∧ !running ∧ st.ownRet ∧ !doneClosed then
+      ["PROP the function returned on its own and completion was not signalled: the running flag is reset, the done channel is open"] else []
+  let st := { st with running := running, ownRet := if st.running ∧ !running then false else st.ownRet }
   let panics := (outs.filter (fun l => l.head? = some "panic")).map (fun l => "PROP the task panicked: " ++ String.intercalate " " l)
-  let base := (if overlap then ["PROP the function ran twice concurrently"] else []) ++ panics ++
+  let base := c5 ++ (if overlap then ["PROP the function ran twice concurrently"] else []) ++ panics ++
     (if (doneClosed || done) && !(st.ownReturned || st.parentCancelled ||
           (op.getD 2 "" = "run.wait" ∧ (op.getD 3 "" = "own" ∨ op.getD 3 "" = "ownctx")) || op.getD 2 "" = "op.cancel") then
       ["PROP completion signalled although the function neither returned on its own nor the parent context ended"] else [])
@@ -148,9 +159,15 @@ def mon (st : Mon) (op : List String) (outs : List (List String)) : Mon × List 
         active = 0 ∧ st.unbegun = 0 ∧ !done ∧ (st.inside.filter (· ≠ th)).isEmpty
       ({ st with pendingCas := if prem then some th else st.pendingCas }, base ++ c4)
     | "start.spawn" => ({ st with unbegun := st.unbegun + 1 }, base ++ c4)
-    | "go.begin" => ({ st with unbegun := st.unbegun - 1 }, base ++ c4)
+    | "go.begin" => ({ st with unbegun := st.unbegun - 1, ownRet := false, ownCtx := false }, base ++ c4)
     | "run.wait" =>
-      ({ st with ownReturned := st.ownReturned || rest.head? = some "own" || rest.head? = some "ownctx" }, base ++ c4)
+      let own := rest.head? = some "own"
+      let ownctx := rest.head? = some "ownctx"
+      -- a Stop that cancelled before the return makes a context error the stop's, not the function's own
+      ({ st with ownReturned := st.ownReturned || own || ownctx,
+                 ownRet := own || (ownctx && !st.cancelSince && !st.parentCancelled), ownCtx := ownctx }, base ++ c4)
+    | "start.storeRun" => ({ st with cancelSince := false }, base ++ c4)
+    | "stop.cancel" => ({ st with cancelSince := true, ownRet := st.ownRet && !st.ownCtx }, base ++ c4)
     | _ => (st, base ++ c4)
   | _ => (st, base)
 
